@@ -641,6 +641,51 @@ func init() {
 		}
 		return nil
 	})
+	// the runtime pass lists of the 7 languages (tie of Cog.Gen.Chains / schemaLangChain)
+	register("c05-chainnames", func(args map[string]string, out *bufio.Writer) error {
+		parts := []string{}
+		for _, lang := range c05Langs {
+			names := []string{}
+			for _, p := range c05Chain(lang) {
+				t := reflect.TypeOf(p)
+				for t.Kind() == reflect.Ptr {
+					t = t.Elem()
+				}
+				n := t.Name()
+				if in, ok := p.(*compiler.InlineObjectsWithTypes); ok {
+					ks := []string{}
+					for _, k := range in.InlineTypes {
+						ks = append(ks, string(k))
+					}
+					n += ":" + strings.Join(ks, ",")
+				}
+				names = append(names, n)
+			}
+			parts = append(parts, lang+"="+strings.Join(names, "+"))
+		}
+		fmt.Fprintf(out, "c05chains\t%s\tok\t=\t\n", strings.Join(parts, ";"))
+		return nil
+	})
+	// the Lean models of the chain passes on THIS property's inputs: `chain <lang>` (C06 models) and
+	// `c05pass InferEntrypoint` (model of this property)
+	register("c05-chainmodel", func(args map[string]string, out *bufio.Writer) error {
+		setup(args)
+		n := argInt(args, "n", 100)
+		r := newRng(uint64(argInt(args, "seed", 1)))
+		for i := 0; i < n; i++ {
+			ss := c05GenClosed(r, args["tier"])
+			if c05HasCycle(ss) {
+				continue
+			}
+			for _, lang := range []string{"go", "java", "php", "python", "typescript"} {
+				run := c05Process(c05Chain(lang), c05Copy(ss))
+				fmt.Fprintf(out, "chain %s %s\t%s\tok\t=\t\n", lang, virSchemas(ss), run.reply())
+			}
+			run := c05Process(compiler.Passes{&compiler.InferEntrypoint{}}, c05Copy(ss))
+			fmt.Fprintf(out, "c05pass InferEntrypoint %s\t%s\tok\t=\t\n", virSchemas(ss), run.reply())
+		}
+		return nil
+	})
 	register("c05-eval", func(args map[string]string, out *bufio.Writer) error {
 		setup(args)
 		for _, l := range readLines(args["in"]) {
